@@ -191,10 +191,11 @@ func (e *c14env) cmds(c *c14case) {
 	}
 	w := e.writer(c.Buf)
 	var err error
+	cps := make([][]string, len(want)) // the slices handed to the code under test (a command may be written again later)
 	p, site := vrun.Catch(func() {
 		for i, argv := range want {
-			// the code under test must not modify its input: hand it a copy
 			cp := append([]string(nil), argv...)
+			cps[i] = cp
 			if c.Fl && i == len(want)-1 {
 				err = flushCmd(w, cp)
 			} else {
@@ -255,6 +256,36 @@ func (e *c14env) cmds(c *c14case) {
 		r.Violate("writeCmd: decoded argv differs from the command", fmt.Sprintf("commands %s buf=%d: decoded %d commands; output starts %q", short(), c.Buf, len(got), head), *c)
 		return
 	}
+	// the same commands are transmitted again (as after a redirect, a retry or for a pinned command): same bytes expected
+	first := append([]byte(nil), e.out.Bytes()...)
+	w = e.writer(c.Buf)
+	p, site = vrun.Catch(func() {
+		for i := range cps {
+			if c.Fl && i == len(cps)-1 {
+				err = flushCmd(w, cps[i])
+			} else {
+				err = writeCmd(w, cps[i])
+			}
+			if err != nil {
+				return
+			}
+		}
+		err = w.Flush()
+	})
+	if p != nil || err != nil {
+		r.Outcome("second transmission fails")
+		r.Violate("writeCmd: second transmission of the same command panics or fails", fmt.Sprintf("commands %s buf=%d: panic %v (%s) err %v", short(), c.Buf, p, site, err), *c)
+		return
+	}
+	if !bytes.Equal(first, e.out.Bytes()) {
+		r.Outcome("second transmission differs")
+		second := e.out.Bytes()
+		if len(second) > 120 {
+			second = second[:120]
+		}
+		r.Violate("writeCmd: second transmission of the same command differs from the first (the command was modified while it was written)", fmt.Sprintf("commands %s buf=%d: first %d bytes, second %d bytes; second starts %q", short(), c.Buf, len(first), len(e.out.Bytes()), second), *c)
+		return
+	}
 	r.Outcome("decoded argv == command")
 }
 
@@ -281,7 +312,7 @@ func TestVerif_C14(t *testing.T) {
 		r.Bounds["arg_len_powers_of_ten_up_to_exp"] = maxExp
 		r.Bounds["arg_counts"] = "0..12, 99..101, 999..1001, 9999..10001"
 		r.Bounds["bufio_writer_sizes"] = []int{16, 64, 4096}
-		r.Rule = "writeN for every n in [0,2^21] (thorough 2^25) and 10^k-1,10^k,10^k+1 (k<=18), 2^k-1,2^k,2^k+1 (k<=62) with ids '*' and '$' against strconv; writeCmd for argument counts {0..12,99..101,999..1001,9999..10001} x 10 content schemes over {'', a, CRLF, '$3 CRLF abc', '*1 CRLF', binary, 40 bytes}; two-argument commands whose last argument has every length 0..1100 and 10^k-1,10^k,10^k+1 up to 10^max_exp filled with protocol look-alikes; all pairs and triples of 13 edge commands back to back (flushCmd for the last in half of them); bufio.Writer sizes 16, 64 and 4096; output decoded by an independent strict request parser, every byte consumed. non-trivial = argument containing CR/LF or '$'/'*', length or count >= 10, or more than one command"
+		r.Rule = "writeN for every n in [0,2^21] (thorough 2^25) and 10^k-1,10^k,10^k+1 (k<=18), 2^k-1,2^k,2^k+1 (k<=62) with ids '*' and '$' against strconv; writeCmd for argument counts {0..12,99..101,999..1001,9999..10001} x 10 content schemes over {'', a, CRLF, '$3 CRLF abc', '*1 CRLF', binary, 40 bytes}; two-argument commands whose last argument has every length 0..1100 and 10^k-1,10^k,10^k+1 up to 10^max_exp filled with protocol look-alikes; all pairs and triples of 13 edge commands back to back (flushCmd for the last in half of them); bufio.Writer sizes 16, 64 and 4096; output decoded by an independent strict request parser, every byte consumed; every command sequence is then written a second time from the same slices (redirect / retry / pinned command) and must produce the same bytes. non-trivial = argument containing CR/LF or '$'/'*', length or count >= 10, or more than one command"
 		r.Assume("lengths above 2^40 cannot be produced by a real command (no such string fits in memory): writeN deviations there are recorded as notes, not violations")
 		r.Assume("the pipeline writer pipe._backgroundWrite calls writeCmd for every queued command in order on one bufio.Writer; back-to-back writeCmd calls on one writer model it (the goroutine machinery itself is covered by the ring/pipe properties)")
 
